@@ -9,7 +9,7 @@
    Refuted (the two known findings at _compare_buildable): == is not congruent with the sharing
    structure, and it depends on dict insertion order. *)
 From Fiddle Require Import PyBase PySlice Sig ArgStore PyCall Heap Traverse Build Build_stmt
-  Traverse_proofs Eq Eq_proofs Anchors.
+  Traverse_proofs Eq Eq_proofs.
 From Coq Require Import List Arith Permutation.
 Import ListNotations.
 Local Open Scope nat_scope.
